@@ -33,7 +33,7 @@ var txConsKinds = []kindInfo{
 var bsProdKinds = []kindInfo{
 	{"bytes", true}, {"string", true}, {"named-bytes", true}, {"named-string", true}, {"ptr-bytes", true}, {"ptr-string", true},
 	{"ptr-named-string", true}, {"reader", true}, {"readcloser", true}, {"writerto", true}, {"writerto-readcloser", true},
-	{"binary-marshaler", true}, {"error", true}, {"struct", true}, {"ptr-struct", true}, {"strings", true},
+	{"binary-marshaler", true}, {"error", true}, {"struct", true}, {"ptr-struct", true}, {"strings", true}, {"nil-bytes", true},
 	{"nil", false}, {"bool", false}, {"int", false}, {"map", false}, {"ptr-any", false}, {"ptr-ptr-string", false},
 	{"nil-ptr-string", false}, {"nil-ptr-bytes", false}, {"nil-ptr-struct", false},
 }
@@ -508,6 +508,9 @@ func (c *run) makeSource(kind string, content []byte) source {
 	switch kind {
 	case "bytes":
 		return source{arg: content, expect: content}
+	case "nil-bytes":
+		// a byte slice that was never filled: zero bytes to send, not "no data"
+		return source{arg: []byte(nil), expect: nil}
 	case "string":
 		return source{arg: str, expect: content}
 	case "named-bytes":
